@@ -20,4 +20,5 @@ def replay(d):
 RULE = ("case = 1-60 start conditions (inclusive/exclusive), rules attached by list, <*>, "
         "none and nested scopes; actions and driver use yybegin/push/pop/top; the driver "
         "walks through every condition and feeds probe strings of every rule")
-REQUIRED = {"scs>40": 1, "underflow": 1, "stack_depth_1": 1, "stack_depth_2": 1}
+REQUIRED = {"scs>40": 1, "underflow": 1, "stack_depth_1": 1, "stack_depth_2": 1,
+            "stack_used_before_first_yylex": 5}
